@@ -11,8 +11,12 @@ KAPPA_MAX = 1e4
 # tuple: "scale" = overall scales far from one (a condition number says nothing about absolute
 # scale: absolute jitters and thresholds only show there), "mean" = means 1e4..1e5 standard
 # deviations away from the origin (cancellation in formulas that go through second moments)
+# "special" = exactly representable special values that continuous draws never hit: an offset or
+# mean that is exactly zero, one zero row or column of a map, two identical components in a batch
+# (value-dependent branches and shortcuts only show there)
 HOSTILE_SCALE = False
 HOSTILE_MEAN = False
+HOSTILE_SPECIAL = False
 EXTREME_SCALES = (1e-6, 1e-4, 1e4, 1e6)
 
 
@@ -21,13 +25,13 @@ class calm:
     length scale - kernels, link functions, quadrature proposals)."""
 
     def __enter__(self):
-        global HOSTILE_SCALE, HOSTILE_MEAN
-        self.saved = (HOSTILE_SCALE, HOSTILE_MEAN)
-        HOSTILE_SCALE = HOSTILE_MEAN = False
+        global HOSTILE_SCALE, HOSTILE_MEAN, HOSTILE_SPECIAL
+        self.saved = (HOSTILE_SCALE, HOSTILE_MEAN, HOSTILE_SPECIAL)
+        HOSTILE_SCALE = HOSTILE_MEAN = HOSTILE_SPECIAL = False
 
     def __exit__(self, *a):
-        global HOSTILE_SCALE, HOSTILE_MEAN
-        HOSTILE_SCALE, HOSTILE_MEAN = self.saved
+        global HOSTILE_SCALE, HOSTILE_MEAN, HOSTILE_SPECIAL
+        HOSTILE_SCALE, HOSTILE_MEAN, HOSTILE_SPECIAL = self.saved
 
 
 def J(a):
@@ -78,7 +82,10 @@ def spd(rng, D, kappa=None, scale=None, diag=False):
 
 
 def spd_batch(rng, R, D, kappa=None, scale=None, diag=False):
-    return np.stack([spd(rng, D, kappa, scale, diag) for _ in range(R)])
+    out = np.stack([spd(rng, D, kappa, scale, diag) for _ in range(R)])
+    if HOSTILE_SPECIAL and R >= 2 and rng.random() < 0.08:
+        out[-1] = out[0]  # two identical components
+    return out
 
 
 def psd_batch(rng, R, D, rank=None):
@@ -92,12 +99,21 @@ def psd_batch(rng, R, D, rank=None):
 
 
 def vec(rng, *shape, scale=1.0):
-    return rng.standard_normal(shape) * scale
+    v = rng.standard_normal(shape) * scale
+    if HOSTILE_SPECIAL:
+        u = rng.random()
+        if u < 0.06:
+            v = np.zeros(shape)  # exactly zero offset / information vector
+        elif u < 0.10 and len(shape) >= 2 and shape[0] >= 2:
+            v[-1] = v[0]  # identical rows
+    return v
 
 
 def mean_vec(rng, R, D, Sigma):
     """a mean vector: O(sd) normally; in the hostile regime sometimes 1e4..1e5 sd from the origin."""
     sd = np.sqrt(np.max(np.diagonal(Sigma, axis1=-1, axis2=-2), axis=-1))[:, None]
+    if HOSTILE_SPECIAL and rng.random() < 0.06:
+        return np.zeros((R, D))
     if HOSTILE_MEAN and rng.random() < 0.15:
         return rng.standard_normal((R, D)) * sd * 10.0 ** rng.uniform(4, 5)
     if HOSTILE_SCALE:
@@ -105,8 +121,9 @@ def mean_vec(rng, R, D, Sigma):
     return rng.standard_normal((R, D))
 
 
-def lin_map(rng, R, Dy, Dx, smin=0.1, smax=3.0, zero=False):
-    """maps with singular values in [smin, smax]."""
+def lin_map(rng, R, Dy, Dx, smin=0.1, smax=3.0, zero=False, special=False):
+    """maps with singular values in [smin, smax]. special: the map is a mean map (no rank
+    requirement), so the special-value regime may zero one of its rows or columns."""
     if zero:
         return np.zeros((R, Dy, Dx))
     out = []
@@ -116,7 +133,15 @@ def lin_map(rng, R, Dy, Dx, smin=0.1, smax=3.0, zero=False):
         V = orth(rng, Dx)[:, :k]
         s = np.exp(rng.uniform(np.log(smin), np.log(smax), k))
         out.append((U * s) @ V.T)
-    return np.stack(out)
+    out = np.stack(out)
+    if special and HOSTILE_SPECIAL and Dy == Dx and rng.random() < 0.05:
+        out[:] = np.eye(Dx)  # exactly the identity map (with whatever offset the caller draws)
+    elif special and HOSTILE_SPECIAL and rng.random() < 0.06:
+        if rng.random() < 0.5:
+            out[:, int(rng.integers(0, Dy)), :] = 0.0  # one output ignores x entirely
+        else:
+            out[:, :, int(rng.integers(0, Dx))] = 0.0  # one input never observed
+    return out
 
 
 def cond(S):
